@@ -231,6 +231,12 @@ def core_family(pid):
     s += [{"a": "ack", "tag": 1, "code": 1}, {"a": "ack", "tag": 2, "code": 1}]
     s += [{"a": "recvCall", "g": "RC"}, {"a": "recvReply", "g": "RR"}] * 3 + [{"a": "close"}]
     add("inbox", s)
+    # a full reply inbox (nobody calls ReceiveReplyCall; the 1025th reply is discarded by design) must not stop the
+    # dispatcher: the waiting caller still gets its reply, the first replies are still handed over in arrival order
+    s = calls(["callWait", "call"]) + [{"a": "reply", "tag": 0, "cid": 1000 + n} for n in range(1030)]
+    s += [{"a": "incall", "cid": 2100}, {"a": "reply", "tag": 1, "cid": 2101}, {"a": "ack", "tag": 1, "code": 1}, {"a": "ack", "tag": 2, "code": 1}]
+    s += [{"a": "recvReply", "g": "RR"}, {"a": "recvReply", "g": "RR"}, {"a": "recvCall", "g": "RC"}, {"a": "close"}]
+    add("replyInboxFull", s)
     # reconnect between call and ack: the ack (and the reply) arrive on the next incarnation
     for n, kinds in enumerate((["call", "callWait", "replyCall"], ["callWait", "callWait", "call"])):
         s = calls(kinds) + [{"a": "ack", "tag": 3, "code": 1}, {"a": "cut"}, {"a": "redial"}]
